@@ -23,8 +23,9 @@ def main(p):
         return dict(import_error=probelib.exc_info(e))
     sym = symbol_database.Default()
     transports = a['transport'].split('+')
-    C = lib.client_cls('Lib')
-    A = getattr(lib.pkg, 'LibAsyncClient', None)
+    SVC = a.get('service', 'Lib')
+    C = lib.client_cls(SVC)
+    A = getattr(lib.pkg, SVC + 'AsyncClient', None)
     out['present']['sync'] = sorted(m for m in a['canon'] if hasattr(C, names.py_method(m)))
     if A is not None:
         out['present']['async'] = sorted(m for m in a['canon'] if hasattr(A, names.py_method(m)))
@@ -55,6 +56,8 @@ def main(p):
         gpath, Rq, Rs, fld = canon_classes(m)
         if e['kind'] != 'unary_unary':
             fail(m, path, 'arity', e['kind'])
+        if own and a.get('own_path') and e['path'] != a['own_path']:
+            fail(m, path, 'own-rpc-path', f'{e["path"]}: the API\'s own RPC lives at {a["own_path"]}')
         if not own and e['path'] != gpath:
             fail(m, path, 'grpc-path', f'{e["path"]} != {gpath}')
         try:
@@ -78,7 +81,7 @@ def main(p):
         return ms
 
     if 'grpc' in transports:
-        client, ch = lib.sync('Lib')
+        client, ch = lib.sync(SVC)
         for m in methods_to_drive('sync'):
             own = a['own_iam'] and m == 'SetIamPolicy'
             gpath, Rq, Rs, fld = canon_classes(m)
@@ -95,7 +98,7 @@ def main(p):
                 fail(m, 'sync', 'exception', probelib.exc_info(e))
 
         async def amain():
-            ac, ach = lib.aio('Lib')
+            ac, ach = lib.aio(SVC)
             for m in methods_to_drive('async'):
                 own = a['own_iam'] and m == 'SetIamPolicy'
                 gpath, Rq, Rs, fld = canon_classes(m)
@@ -114,7 +117,7 @@ def main(p):
 
     if 'rest' in transports:
         seam = seams.HttpSeam().install()
-        rc = lib.rest('Lib')
+        rc = lib.rest(SVC)
         for m in methods_to_drive('sync'):
             own = a['own_iam'] and m == 'SetIamPolicy'
             if own or (a['legacy'] and m in ('SetIamPolicy', 'GetIamPolicy', 'TestIamPermissions') and m not in a.get('ruled', a['rules'])):
